@@ -20,7 +20,12 @@ import (
 
 func init() {
 	Register(&Scenario{
-		Name: "store", Props: []string{"C01", "C03"}, CrashTo: "C01,C03",
+		Name: "store", Props: []string{"C01", "C03"}, CrashTo: "C01,C03,C05",
+		// C05: the workers of this scenario are what the reader goroutines of
+		// several peers and the finalise goroutines of a torrent do to the
+		// store when blocks of one piece arrive from several peers at once;
+		// a panic here takes the client down on a message sequence.
+		Also:    map[string]int{"C05": 1},
 		Horizon: 400 * time.Hour, MaxSteps: 400000, Weight: 3,
 		Main: storeMain, NontrivialNeedsFault: true,
 	})
